@@ -23,6 +23,7 @@ EXPLANATION = (
     "are disjoint from the substituted names and only fresh names are handed to eager_subs. R05.4 the gensym counter is written only "
     "inside gensym by += 1 before it is read. R05.5 the reserved marker literal is the same everywhere it is used."
     ' Added since: R05.1 also requires that a rebuilt renaming map is filtered at most by membership in the inputs of every funsor-valued field and that keys/values of a mapping of bound names are not sorted independently; R05.6 a rewrite moves the binders of an inner contraction over sibling operands only under a kind-consistent freshness test (or vacuously).'
+    ' Round 4: R05.7 names removed from the inputs mapping handed to the base constructor are keys of its bound argument on every path; R05.8 after R = P(**relabel) with gensym names, P.inputs / P.input_vars are not read.'
 )
 ASSUMPTIONS = [
     "the value semantics of renamed terms is not decided (runtime)",
